@@ -8,6 +8,7 @@ package c13
 // flattened; nil and empty identified; maps as JSON objects (encoding/json sorts the keys).
 
 import (
+	"encoding/json"
 	"os"
 
 	"github.com/containerd/nri/pkg/api"
@@ -96,6 +97,14 @@ type ShapeJ struct {
 	NilMemory      bool `json:"nilMemory"`
 	NilHooks       bool `json:"nilHooks"`
 	RawGenerator   bool `json:"rawGenerator"` // &rgen.Generator{Config: spec} (as the repo's test) instead of NewFromSpec
+	// NilLinux: the spec has NO linux section at all (effective only when every modelled field
+	// of that section is empty): every Adjust* that touches it must create it first
+	NilLinux bool `json:"nilLinux"`
+	// NilProcess: likewise for the process section (args, env, rlimits, OOM score all empty).
+	// NOT generated: outside the domain (checks/C13.json assumptions) - AdjustRlimits and, with a
+	// generator not made by NewFromSpec, runtime-tools' own AddProcessEnv panic without a process
+	// section; kept for replays and experiments
+	NilProcess bool `json:"nilProcess"`
 }
 
 type SpecJ struct {
@@ -381,6 +390,12 @@ func (j *SpecJ) ToSpec() *rspec.Spec {
 			Poststart: hooksToOCI(j.Hooks.Poststart), Poststop: hooksToOCI(j.Hooks.Poststop),
 		}
 	}
+	if j.Shape.NilLinux && len(j.Devices) == 0 && j.CgroupsPath == "" && j.RootfsPropagation == "" && j.Rdt == nil && resEmpty {
+		s.Linux = nil
+	}
+	if j.Shape.NilProcess && len(j.Args) == 0 && len(j.Env) == 0 && len(j.Rlimits) == 0 && j.Oom == nil {
+		s.Process = nil
+	}
 	return s
 }
 
@@ -472,12 +487,18 @@ func FromSpec(s *rspec.Spec, cdi []string, shape ShapeJ) SpecJ {
 }
 
 // blankCovered zeroes every field FromSpec reads, so that what is left is "the rest".
+// a process section that holds nothing = no process section (NilProcess shapes)
+var emptyProcessJSON = func() string { b, _ := json.Marshal(&rspec.Process{}); return string(b) }()
+
 func blankCovered(s *rspec.Spec) {
 	s.Annotations = nil
 	s.Mounts = nil
 	s.Hooks = nil
 	if p := s.Process; p != nil {
 		p.Args, p.Env, p.Rlimits, p.OOMScoreAdj = nil, nil, nil, nil
+		if b, err := json.Marshal(p); err == nil && string(b) == emptyProcessJSON {
+			s.Process = nil
+		}
 	}
 	if l := s.Linux; l != nil {
 		l.Devices, l.CgroupsPath, l.RootfsPropagation, l.IntelRdt = nil, "", "", nil
@@ -493,6 +514,11 @@ func blankCovered(s *rspec.Spec) {
 			if r.CPU == nil && r.Network == nil && len(r.Rdma) == 0 {
 				l.Resources = nil
 			}
+		}
+		// a linux section that holds nothing (any more) = no linux section (NilLinux shapes:
+		// Adjust may have had to create it)
+		if b, err := json.Marshal(l); err == nil && string(b) == "{}" {
+			s.Linux = nil
 		}
 	}
 }
